@@ -118,7 +118,8 @@ class Package:
         self.gnames = ['random (module generator)']
         self.imports = {}       # module -> {local name: ('mod', modname) | ('obj', modname, name)}
         self.unknown_decorators = set()
-        for root, _, files in os.walk(src):
+        for root, dirs, files in os.walk(src):
+            dirs.sort()
             for fn in sorted(files):
                 if fn.endswith('.py'):
                     path = os.path.join(root, fn)
@@ -399,7 +400,7 @@ class FnTranslation:
         for st in states:
             names |= set(st)
         out = {}
-        for n in names:
+        for n in sorted(names):
             ids = []
             for st in states:
                 v = st.get(n, pre.get(n))
@@ -419,7 +420,7 @@ class FnTranslation:
     def weaken(self, names):
         """enter a region (loop / try) in which the given names are assigned weakly: one head variable per name"""
         saved = set(self.weak)
-        for n in names:
+        for n in sorted(names):
             if n in self.weak and n in self.cur:
                 continue
             h = self.newvar(n + '~')
@@ -983,7 +984,7 @@ class FnTranslation:
         if isinstance(e, (ast.ListComp, ast.SetComp, ast.GeneratorExp, ast.DictComp)):
             saved_cur, saved_weak = dict(self.cur), set(self.weak)
             for g in e.generators:
-                for n in self.assigned_names([g.target]):
+                for n in sorted(self.assigned_names([g.target])):
                     self.cur.pop(n, None)
                     self.weak.discard(n)
                 it = self.expr(g.iter)
